@@ -10,6 +10,7 @@ import gen_c05_cases as G
 
 LEVEL = 'proof'
 ENGINES_QUICK = ['interp', 'gen0', 'gen1', 'gen2', 'gen3']
+VALS_ADDR = 0x20000000
 
 
 def build(chk):
@@ -22,76 +23,120 @@ def case_line(cid, mode, engine, target, mir, vals, io):
     return ' '.join([cid, mode, engine, target, G.hexs(mir.encode()) if mir else '-', G.hexs(vals), G.hexs(io)])
 
 
+def norm(c):
+    """a case is a session: calls = [(proto, vals), ...] made one after the other in one context"""
+    if 'calls' not in c:
+        c = dict(c, calls=[dict(proto=c['proto'], vals=c['vals'])])
+    return c
+
+
 def run_cases(impl, model, cases):
-    """cases: list of dict(proto, vals, rets, engine, target).  Returns list of (case, mismatches, modelrow)"""
+    """cases: list of dict(calls=[dict(proto, vals)], rets, engine, target).
+    Returns list of (case, mismatches, modelrow of the first failing (or first) call)"""
+    cases = [norm(c) for c in cases]
     lines = []
     for i, c in enumerate(cases):
-        lines.append(case_line('c%d' % i, 'c05', c['engine'], c.get('target', 'probe'), G.c05_mir(c['proto']),
-                               G.vals_bytes(c['proto'], c['vals']), G.ret_bytes_n(c['proto'], c['rets'])))
+        protos = [x['proto'] for x in c['calls']]
+        lines.append(case_line('c%d' % i, 'c05', c['engine'], c.get('target', 'probe'), G.c05_mir(protos),
+                               G.session_vals(protos, [x['vals'] for x in c['calls']]),
+                               G.ret_bytes_n(protos[0], c['rets'])))
     rc, out, err = vlib.run_lines(impl, lines, timeout=1800)
     rows = {}
     for l in out:
         if l.strip():
             r = G.parse_impl(l)
             rows.setdefault(r['id'], r)
-    vals_addr = 0
-    for r in rows.values():
-        if r.get('vals'):
-            vals_addr = r['vals']
-            break
-    mlines = [G.model_line('c%d' % i, c['proto'], c['vals'], c['rets'], vals_addr) for i, c in enumerate(cases)]
+    mlines = []
+    for i, c in enumerate(cases):
+        for k, x in enumerate(c['calls']):
+            mlines.append(G.model_line('c%d.%d' % (i, k), x['proto'], x['vals'], c['rets'], VALS_ADDR + G.VBASE * k))
     rc2, mout, merr = vlib.run_lines(model, mlines, timeout=600)
-    if rc2 != 0 or len(mout) != len(cases):
+    if rc2 != 0 or len(mout) != len(mlines):
         raise vlib.BuildError('model driver failed rc=%d: %s' % (rc2, merr[-800:]))
+    ms = {}
+    for l in mout:
+        m = G.parse_model(l)
+        ms[m['id']] = m
     res = []
     for i, c in enumerate(cases):
-        m = G.parse_model(mout[i])
         r = rows.get('c%d' % i, dict(status='missing', detail='no output from harness: ' + err[-200:]))
-        res.append((c, G.compare_c05(c['proto'], m, r, c['rets']), m))
+        bad, mfirst = [], ms['c%d.0' % i]
+        for k, x in enumerate(c['calls']):
+            m = ms['c%d.%d' % (i, k)]
+            if r['status'] == 'ok':
+                key = 'img' if k == 0 else 'img%d' % k
+                rk = dict(r, img=r.get(key, b''), outs=r['outs'][G.OBASE * k:G.OBASE * (k + 1)])
+                if not rk['img']:
+                    rk = dict(status='missing', detail='call %d of the session did not run' % k)
+            else:
+                rk = r
+            bk = G.compare_c05(x['proto'], m, rk, c['rets'])
+            if bk:
+                if len(c['calls']) > 1:
+                    bk = ['call %d (%s): %s' % (k, G.proto_sig(x['proto']), b) for b in bk]
+                if not bad:
+                    mfirst = m
+                bad += bk
+            if r['status'] != 'ok':
+                break
+        res.append((c, bad, mfirst))
     return res
 
 
 def shrink_case(impl, model, c):
-    """drop arguments / results while the case still fails"""
-    def fails(proto):
-        cc = dict(c)
-        cc['proto'] = proto
-        cc['vals'] = [v for v, keep in zip(c['vals'], proto['_keep'])if keep] if '_keep' in proto else c['vals']
-        return bool(run_cases(impl, model, [cc])[0][1])
-    proto = dict(c['proto'])
-    vals = list(c['vals'])
+    """drop calls, then arguments / results, while the case still fails"""
+    c = norm(c)
+
+    def fails(cc):
+        bad = run_cases(impl, model, [cc])[0][1]
+        return bool(bad)
+    calls = list(c['calls'])
+    k = 0
+    while len(calls) > 1 and k < len(calls):
+        cand = calls[:k] + calls[k + 1:]
+        nld = lambda p: sum(1 for t in p['res'] if t == 'ld')
+        if nld(cand[0]['proto']) == nld(calls[0]['proto']) and fails(dict(c, calls=cand)):
+            calls = cand
+        else:
+            k += 1
     changed = True
     while changed:
         changed = False
-        for i in range(len(proto['args']) - 1, -1, -1):
-            p2 = dict(proto)
-            p2['args'] = proto['args'][:i] + proto['args'][i + 1:]
-            p2['nfixed'] = proto['nfixed'] - (1 if i < proto['nfixed'] else 0)
-            v2 = vals[:i] + vals[i + 1:]
-            cc = dict(c, proto=p2, vals=v2)
-            if run_cases(impl, model, [cc])[0][1]:
-                proto, vals, changed = p2, v2, True
-        for i in range(len(proto['res']) - 1, -1, -1):
-            p2 = dict(proto)
-            p2['res'] = proto['res'][:i] + proto['res'][i + 1:]
-            cc = dict(c, proto=p2, vals=vals)
-            if run_cases(impl, model, [cc])[0][1]:
-                proto, changed = p2, True
-    return dict(c, proto=proto, vals=vals)
+        for k in range(len(calls)):
+            proto, vals = calls[k]['proto'], calls[k]['vals']
+            for i in range(len(proto['args']) - 1, -1, -1):
+                p2 = dict(proto)
+                p2['args'] = proto['args'][:i] + proto['args'][i + 1:]
+                p2['nfixed'] = proto['nfixed'] - (1 if i < proto['nfixed'] else 0)
+                v2 = vals[:i] + vals[i + 1:]
+                cand = calls[:k] + [dict(proto=p2, vals=v2)] + calls[k + 1:]
+                if fails(dict(c, calls=cand)):
+                    calls, proto, vals, changed = cand, p2, v2, True
+            for i in range(len(proto['res']) - 1, -1, -1):
+                if proto['res'][i] == 'ld' and len(calls) > 1:
+                    continue
+                p2 = dict(proto)
+                p2['res'] = proto['res'][:i] + proto['res'][i + 1:]
+                cand = calls[:k] + [dict(proto=p2, vals=vals)] + calls[k + 1:]
+                if fails(dict(c, calls=cand)):
+                    calls, proto, changed = cand, p2, True
+    return dict(c, calls=calls)
 
 
 def replay_obj(c, bad, m):
-    return dict(proto=c['proto'], engine=c['engine'], target=c.get('target', 'probe'),
-                vals=[v.hex() for v in c['vals']],
+    c = norm(c)
+    return dict(calls=[dict(proto=x['proto'], vals=[v.hex() for v in x['vals']]) for x in c['calls']],
+                engine=c['engine'], target=c.get('target', 'probe'),
                 rets={k: (v.hex() if isinstance(v, (bytes, bytearray)) else v) for k, v in c['rets'].items()},
                 mismatches=bad, model_image=['%s=%s/%d' % x for x in m['img']], model_agree=m.get('agree'),
-                mir=G.c05_mir(c['proto']))
+                mir=G.c05_mir([x['proto'] for x in c['calls']]))
 
 
-def signature(c, bad, m):
-    """stable id of a failing call shape: engine class + prototype"""
+def signature(c, bad=None, m=None):
+    """stable id of a failing call shape: engine class + prototype(s)"""
+    c = norm(c)
     eng = 'interp' if c['engine'] == 'interp' else 'gen'
-    return 'c05:%s:%s' % (eng, G.proto_sig(c['proto']))
+    return 'c05:%s:%s' % (eng, ' ; '.join(G.proto_sig(x['proto']) for x in c['calls']))
 
 
 def gen_cases(chk, quick):
@@ -112,7 +157,20 @@ def gen_cases(chk, quick):
         vals, rets = G.gen_values(rng, p)
         vals = G.fix_values(p, vals, rng)
         for e in (engines if (not quick or k < 60) else ['interp', rng.choice(engines[1:])]):
-            cases.append(dict(proto=p, vals=vals, rets=rets, engine=e))
+            cases.append(dict(calls=[dict(proto=p, vals=vals)], rets=rets, engine=e))
+    # sessions: several calls in one context through related prototypes (per-signature caches,
+    # lazily created trampolines): p, a one-aspect variant q, then p again / another variant
+    ns = 60 if quick else 1200
+    for k in range(ns):
+        p = G.gen_proto(rng, maxargs=10) if k % 3 else rng.choice(G.session_seeds())
+        seq = [p, G.related_proto(rng, p)]
+        seq.append(rng.choice([p, G.related_proto(rng, seq[1]), G.related_proto(rng, p)]))
+        calls = []
+        for q in seq:
+            v, rets = G.gen_values(rng, q)
+            calls.append(dict(proto=q, vals=G.fix_values(q, v, rng)))
+        for e in ['interp', rng.choice(engines[1:])]:
+            cases.append(dict(calls=calls, rets=rets, engine=e))
     return cases
 
 
@@ -125,20 +183,25 @@ def run(chk):
                                 'tools/gen_c05_cases.py (MIR text generation, image comparison), GNU as, gcc 12']
     cases = gen_cases(chk, quick)
     for c in cases:
-        p = c['proto']
-        chk.count((G.proto_sig(p), c['engine'], [v.hex() for v in c['vals']]), nontrivial=len(p['args']) + len(p['res']) >= 2)
         chk.dist('engine', c['engine'])
-        chk.dist('nargs', min(len(p['args']), 20) // 4 * 4)
-        chk.dist('vararg', p['vararg'])
-        chk.dist('nres', len(p['res']))
-        for a in p['args']:
-            chk.dist('argkind', a.split(':')[0])
+        chk.dist('calls_per_context', len(c['calls']))
+        for x in c['calls']:
+            p = x['proto']
+            chk.count((G.proto_sig(p), c['engine'], [v.hex() for v in x['vals']], len(c['calls'])),
+                      nontrivial=len(p['args']) + len(p['res']) >= 2)
+            chk.dist('nargs', min(len(p['args']), 20) // 4 * 4)
+            chk.dist('vararg', p['vararg'])
+            chk.dist('nres', len(p['res']))
+            for a in p['args']:
+                chk.dist('argkind', a.split(':')[0])
+            for a in p['res']:
+                chk.dist('reskind', a)
     chk.cov['rule'] = ('seeded + boundary + corpus prototypes x random bit patterns x {interp FFI, gen -O0..-O3}: the '
                        'register/stack image captured by the assembly probe callee must equal the image predicted by the '
                        'extracted SysV model; a case is non-trivial when it has >= 2 arguments+results; distinct by '
                        'prototype+engine+values')
-    for c in cases[:3]:
-        chk.sample(dict(proto=G.proto_sig(c['proto']), engine=c['engine']))
+    for c in cases[:2] + cases[-2:]:
+        chk.sample(dict(calls=[G.proto_sig(x['proto']) for x in c['calls']], engine=c['engine']))
     res = run_cases(impl, model, cases)
     seen = set()
     nbad = 0
@@ -162,7 +225,7 @@ def run(chk):
         seen.add(signature(c2, bad2, m2))
         chk.finding(signature(c2, bad2, m2), replay_obj(c2, bad2, m2),
                     'native callee does not receive the ABI image for %s via %s: %s' % (
-                        G.proto_sig(c2['proto']), c2['engine'], '; '.join(bad2[:3])))
+                        signature(c2).split(':', 2)[2], c2['engine'], '; '.join(bad2[:3])))
     if not r['ok'] and not nbad:
         chk.proof_broken(r, searched='%d calls agreed with the SysV model image' % len(cases))
 
@@ -170,11 +233,12 @@ def run(chk):
 def replay(chk, path):
     j = json.load(open(path))['replay']
     impl, model = build(chk)
-    c = dict(proto=j['proto'], engine=j['engine'], target=j.get('target', 'probe'),
-             vals=[bytes.fromhex(v) for v in j['vals']],
+    calls = j.get('calls') or [dict(proto=j['proto'], vals=j['vals'])]
+    c = dict(calls=[dict(proto=x['proto'], vals=[bytes.fromhex(v) for v in x['vals']]) for x in calls],
+             engine=j['engine'], target=j.get('target', 'probe'),
              rets={k: (bytes.fromhex(v) if isinstance(v, str) else v) for k, v in j['rets'].items()})
     (c, bad, m), = run_cases(impl, model, [c])
-    print('prototype:', G.proto_sig(c['proto']), 'engine:', c['engine'])
+    print('calls:', signature(c), 'engine:', c['engine'])
     print('model image:', ' '.join('%s=%s/%d' % x for x in m['img']))
     print('mismatches:', bad)
     return 1 if bad else 0
